@@ -132,7 +132,7 @@ MODELLED = ["none", "manifest-path-bad", "state-path-bad", "manifest-path-dup", 
 ORACLE_ONLY = ["drop-key", "wrong-type", "created-format", "user-no-name", "message-type", "type-uri", "algorithm", "id-empty",
                "fixity-bad-path", "fixity-dup-digest", "fixity-wrong-digest", "fixity-unknown-path", "dup-json-key", "version-not-object", "state-not-lists",
                "manifest-path-outside-version", "manifest-path-outside-content", "version-block-drop-key",
-               "type-other-version", "decl-other-version"]
+               "type-other-version", "decl-other-version", "manifest-empty-entry"]
 
 
 def edit(rng, base, kind):
@@ -308,6 +308,8 @@ def edit(rng, base, kind):
         d, i = _some_manifest_path(rng, inv); inv["manifest"][d][i] = "v9/content/elsewhere.txt"
     elif kind == "manifest-path-outside-content":
         d, i = _some_manifest_path(rng, inv); p = inv["manifest"][d][i].split("/"); inv["manifest"][d][i] = p[0] + "/" + "/".join(p[2:]) if len(p) > 2 else p[0] + "/x"
+    elif kind == "manifest-empty-entry":
+        d = rng.choice(sorted(inv["manifest"])); inv["manifest"][d] = []; desc += " " + d[:12]
     elif kind == "version-block-drop-key":
         v = rng.choice(sorted(inv["versions"])); inv["versions"][v].pop(rng.choice(["created", "state"]))
     else:
@@ -383,7 +385,8 @@ def lean_line(inv):
 # ------------------------------------------------------------------ inventories of earlier versions
 
 CROSS = ["old-inv-consistent", "old-inv-head", "old-inv-id", "old-inv-state", "old-inv-cdir", "old-inv-manifest-drop",
-         "old-inv-manifest-extra", "old-inv-sidecar", "old-inv-later-version", "old-inv-meta-differs", "old-inv-is-older"]
+         "old-inv-manifest-extra", "old-inv-sidecar", "old-inv-later-version", "old-inv-meta-differs", "old-inv-is-older",
+         "old-inv-other-alg", "old-inv-other-alg-state", "old-inv-other-alg-empty-entry", "old-inv-other-alg-wrong-digest"]
 
 
 def version_order(inv):
@@ -467,6 +470,31 @@ def cross_edit(rng, base, kind):
         v = rng.choice(cands)
         olds[v] = copy.deepcopy(olds[names[names.index(v) - 1]])
         desc = "%s: %s holds the inventory of %s" % (kind, v, names[names.index(v) - 1])
+    elif kind.startswith("old-inv-other-alg"):
+        # the earlier version was written under the other digest algorithm (allowed); then one inconsistency
+        other = "sha256" if base.alg == "sha512" else "sha512"
+        conv = {d: hashlib.new(other, base.pool[d]).hexdigest() for d in o["manifest"] if d in base.pool}
+        if set(conv) != set(o["manifest"]):
+            return None
+        o["digestAlgorithm"] = other
+        o["manifest"] = {conv[d]: ps for d, ps in o["manifest"].items()}
+        for blk in o["versions"].values():
+            blk["state"] = {conv[d]: ps for d, ps in blk["state"].items()}
+        o.pop("fixity", None)
+        side[v] = ("alg", other)
+        if kind == "old-inv-other-alg-state":
+            blk = o["versions"][sorted(o["versions"])[0]]
+            d = sorted(blk["state"])[0]
+            blk["state"][d] = blk["state"][d] + ["extra/other-alg.txt"]
+        elif kind == "old-inv-other-alg-empty-entry":
+            o["manifest"][sorted(o["manifest"])[0]] = []
+        elif kind == "old-inv-other-alg-wrong-digest":
+            d = sorted(o["manifest"])[0]
+            nd = hashlib.new(other, b"not the content").hexdigest()
+            o["manifest"][nd] = o["manifest"].pop(d)
+            for blk in o["versions"].values():
+                if d in blk["state"]:
+                    blk["state"][nd] = blk["state"].pop(d)
     elif kind == "old-inv-meta-differs":
         blk = o["versions"][sorted(o["versions"])[0]]
         blk["message"] = "another message"
@@ -481,4 +509,6 @@ def write_old_inventories(dst, olds, side, alg):
             continue
         b = json.dumps(o, ensure_ascii=False).encode("utf-8")
         open(os.path.join(d, "inventory.json"), "wb").write(b)
-        open(os.path.join(d, "inventory.json." + alg), "w").write("%s  inventory.json\n" % side.get(v, hashlib.new(alg, b).hexdigest()))
+        sv = side.get(v)
+        a = sv[1] if isinstance(sv, tuple) else alg
+        open(os.path.join(d, "inventory.json." + a), "w").write("%s  inventory.json\n" % (sv if isinstance(sv, str) else hashlib.new(a, b).hexdigest()))
